@@ -188,3 +188,86 @@ let () =
             dot := !dot +. a *. b; nx := !nx +. a *. a; ny := !ny +. b *. b done;
           !dot /. (Float.max (sqrt !nx) 1e-8 *. Float.max (sqrt !ny) 1e-8))))
     | _ -> failwith "cosine_similarity")
+
+(* ------------------------------------------------------------------ scalar parameters of the float routines (oracle)
+   "<op>_p": every array is  I:e A:ints  =  ints / 8 * 2^-e  (exact), the epsilon is a decimal literal (S:<eps>) or
+   S:default (the header's default, a float literal: 1e-8f cosine_similarity, 1e-6f pairwise_distance, 1e-5f norms).
+   The "32" variants receive the epsilon rounded to single precision (the driver passes a float).  References are the
+   documented PyTorch formulas, in double:
+     cosine_similarity  x.y / (max(|x|, eps) * max(|y|, eps))        (each norm clamped separately)
+     pairwise_distance  (sum_k |x_k - y_k + eps|^p)^(1/p) over the last axis, keepdim optional
+     batch_norm         (x - mean[c]) / sqrt(var[c] + eps) * w[c] + b[c]
+     layer / instance / group norm   (x - E[x]) / sqrt(Var[x] + eps) * w + b   (biased variance over the statistics set) *)
+let to_single x = Int32.float_of_bits (Int32.bits_of_float x)
+let fa_scaled e arg = let (s, d) = getA arg in let e = int_of_z (getI e) in
+  { sh = Array.of_list (List.map int_of_z s); d = Array.of_list (List.map (fun z -> Float.ldexp (fl z /. 8.0) (- e)) d) }
+let eps_of is32 dflt arg =
+  let s = getS arg in
+  if s = "default" then to_single dflt else let v = float_of_string s in if is32 then to_single v else v
+
+let regp name tag f =
+  register name (fun a -> oracle (f false a));
+  register (name ^ "32") (fun a -> let s = tag ^ f true a in { model = s; spec = s; dom = false })
+
+let norm_out x eps same wb =
+  build x.sh (fun i -> let (mean, var) = stats x i same in let (w, b) = wb i in
+    (get x i -. mean) /. sqrt (var +. eps) *. w +. b)
+
+let () =
+  regp "cosine_similarity_p" "f32 " (fun is32 a -> match a with
+    | [e1; x; e2; y; ax; eps] ->
+        let x = fa_scaled e1 x and y = fa_scaled e2 y in
+        let ax = (match ax with N -> 1 | _ -> int_of_z (getI ax)) and eps = eps_of is32 1e-8 eps in
+        let r = Array.length x.sh in let ax = if ax < 0 then ax + r else ax in let n = x.sh.(ax) in
+        let sh = Array.init (r - 1) (fun t -> if t < ax then x.sh.(t) else x.sh.(t + 1)) in
+        show_fa (build sh (fun i ->
+          let full t = Array.init r (fun u -> if u < ax then i.(u) else if u = ax then t else i.(u - 1)) in
+          let dot = ref 0.0 and nx = ref 0.0 and ny = ref 0.0 in
+          for t = 0 to n - 1 do let p = get x (full t) and q = get y (full t) in
+            dot := !dot +. p *. q; nx := !nx +. p *. p; ny := !ny +. q *. q done;
+          !dot /. (Float.max (sqrt !nx) eps *. Float.max (sqrt !ny) eps)))
+    | _ -> failwith "cosine_similarity_p");
+  regp "pairwise_distance_p" "f32r " (fun is32 a -> match a with
+    | [e1; x; e2; y; ord; eps; keep] ->
+        let x = fa_scaled e1 x and y = fa_scaled e2 y in
+        let dflt = getS eps = "default" in
+        let p = if dflt then 2 else int_of_z (getI ord) and keep = (not dflt) && int_of_z (getI keep) <> 0 in
+        let eps = eps_of is32 1e-6 eps in
+        let r = Array.length x.sh in let n = x.sh.(r - 1) in
+        let sh = if keep then Array.append (Array.sub x.sh 0 (r - 1)) [| 1 |] else Array.sub x.sh 0 (r - 1) in
+        show_fa (build sh (fun i ->
+          let s = ref 0.0 in
+          for t = 0 to n - 1 do let j = Array.append (Array.sub i 0 (r - 1)) [| t |] in
+            let d = Float.abs (get x j -. get y j +. eps) in
+            s := !s +. (match p with 1 -> d | 2 -> d *. d | _ -> d *. d *. d) done;
+          (match p with 1 -> !s | 2 -> sqrt !s | _ -> Float.cbrt !s)))
+    | _ -> failwith "pairwise_distance_p");
+  regp "batch_norm_p" "f32 " (fun is32 a -> match a with
+    | [ex; x; em; m; ev; v; ew; w; eb; b; eps] ->
+        let x = fa_scaled ex x and m = fa_scaled em m and v = fa_scaled ev v and w = fa_scaled ew w and b = fa_scaled eb b in
+        let eps = eps_of is32 1e-5 eps in let r = Array.length x.sh in
+        show_fa (build x.sh (fun i -> let c = i.(r - 3) in
+          (get x i -. m.d.(c)) /. sqrt (v.d.(c) +. eps) *. w.d.(c) +. b.d.(c)))
+    | _ -> failwith "batch_norm_p");
+  regp "layer_norm_p" "f32 " (fun is32 a -> match a with
+    | [ex; x; ew; w; eb; b; eps] ->
+        let x = fa_scaled ex x and w = fa_scaled ew w and b = fa_scaled eb b in let eps = eps_of is32 1e-5 eps in
+        let r = Array.length x.sh and k = Array.length w.sh in
+        let same p q = (let ok = ref true in for t = 0 to r - k - 1 do if p.(t) <> q.(t) then ok := false done; !ok) in
+        show_fa (norm_out x eps same (fun i -> let wi = Array.sub i (r - k) k in (get w wi, get b wi)))
+    | _ -> failwith "layer_norm_p");
+  regp "instance_norm_p" "f32 " (fun is32 a -> match a with
+    | [kind; ex; x; ew; w; eb; b; eps] ->
+        let kind = getS kind in let nd = Char.code kind.[if kind.[0] = 'g' then 1 else 0] - 48 in
+        let x = fa_scaled ex x and w = fa_scaled ew w and b = fa_scaled eb b in let eps = eps_of is32 1e-5 eps in
+        let r = Array.length x.sh in
+        let same p q = (let ok = ref true in for t = 0 to r - nd - 1 do if p.(t) <> q.(t) then ok := false done; !ok) in
+        show_fa (norm_out x eps same (fun i -> let c = i.(r - nd - 1) in (w.d.(c), b.d.(c))))
+    | _ -> failwith "instance_norm_p");
+  regp "group_norm_p" "f32 " (fun is32 a -> match a with
+    | [ex; x; g; ew; w; eb; b; eps] ->
+        let x = fa_scaled ex x and w = fa_scaled ew w and b = fa_scaled eb b in let eps = eps_of is32 1e-5 eps in
+        let g = int_of_z (getI g) in let cg = x.sh.(1) / g in
+        let same p q = p.(0) = q.(0) && p.(1) / cg = q.(1) / cg in
+        show_fa (norm_out x eps same (fun i -> (w.d.(i.(1)), b.d.(i.(1)))))
+    | _ -> failwith "group_norm_p")
